@@ -154,6 +154,9 @@ func genPick(t *rapid.T) PickCase {
 type dl struct {
 	piece       int
 	allowedFast bool
+	// stalled: the peer was snubbed, or choked us, while it had this piece (config: "snubbed and choked peers don't
+	// count" against the end-game limit). Cleared by unchoke (choked) and by the end of the download.
+	snubbed, choked bool
 }
 
 func runPick(c PickCase) core.Result {
@@ -254,8 +257,14 @@ func runPick(c PickCase) core.Result {
 		}
 		pe := peers[p]
 		wasRequested := map[int]int{}
+		wasRunning := map[int]int{}
 		for x := 0; x < np; x++ {
 			wasRequested[x], _ = requesters(x)
+		}
+		for _, d := range downloads {
+			if !d.snubbed && !d.choked {
+				wasRunning[d.piece]++
+			}
 		}
 		wsActive := false
 		for _, src := range sources {
@@ -289,9 +298,13 @@ func runPick(c PickCase) core.Result {
 			fail = fmt.Sprintf("piece %d picked for peer %d as allowed-fast, but the peer never allowed it", x, p)
 			return
 		}
-		if wasRequested[x]+1 > c.MaxDup {
-			fail = fmt.Sprintf("piece %d is now downloaded from %d peers, the end-game limit is %d", x, wasRequested[x]+1, c.MaxDup)
+		// simultaneous downloads of one piece: downloads whose peer is snubbed or choking do not count
+		if wasRunning[x]+1 > c.MaxDup {
+			fail = fmt.Sprintf("piece %d is now downloaded from %d peers that are neither snubbed nor choking (%d in all), the end-game limit is %d", x, wasRunning[x]+1, wasRequested[x]+1, c.MaxDup)
 			return
+		}
+		if wasRequested[x] > wasRunning[x] {
+			lab["took-over-stalled-piece"] = true
 		}
 		if wasRequested[x] > 0 {
 			lab["duplicate-download"] = true
@@ -407,6 +420,7 @@ func runPick(c PickCase) core.Result {
 				peers[p].PeerChoking = false
 				if d, ok := downloads[p]; ok && !d.allowedFast {
 					pk.HandleUnchoke(peers[p], uint32(d.piece))
+					d.choked = false
 				}
 				lab["unchoke"] = true
 			}
@@ -415,6 +429,7 @@ func runPick(c PickCase) core.Result {
 				peers[p].PeerChoking = true
 				if d, ok := downloads[p]; ok && !d.allowedFast {
 					pk.HandleChoke(peers[p], uint32(d.piece))
+					d.choked, d.snubbed = true, false
 					lab["choke-during-download"] = true
 					pickAll()
 				}
@@ -423,6 +438,7 @@ func runPick(c PickCase) core.Result {
 			if d, ok := downloads[p]; ok && connected[p] && !peers[p].PeerChoking {
 				peers[p].Snubbed = true
 				pk.HandleSnubbed(peers[p], uint32(d.piece))
+				d.snubbed = true
 				lab["snub"] = true
 				pickAll()
 			}
